@@ -664,4 +664,12 @@ def queries():
         qs = qs + [q for q in C03._base_queries() if q.name in ("server-do_rsa_decrypt", "server-do_ecdh", "server-do_static_ecdh")]
     except Exception:
         pass
+    try:
+        # Lucky13 shape: the [min_len, max_len] range cbc_decrypt announces to br_hmac_outCT is a function of public values
+        # only (C02 query family cbc-dec-*, recording stub at the br_hmac_outCT seam).  The IR-level cbc_decrypt_* queries
+        # decide the same at 96/160-byte records only in the thorough tier (210 s; on seeded change C08g: no verdict in 900 s).
+        import C02
+        qs = qs + [q for q in C02.queries() if q.name.startswith("cbc-dec-") and q.tier == "quick"]
+    except Exception:
+        pass
     return qs
